@@ -73,17 +73,17 @@ case(C + "square_map", params={"xs": List(INT)}, returns=Dict(INT, INT),
      ensures={"dom": "all(x in result and result[x] == x * x for x in xs)", "only": "all(k in xs for k in result)"},
      canaries={"id": "all(result[x] == x for x in xs)", "empty": "len(result) == 0"},
      gen=lambda rng: {"xs": ints(rng)})
-case(C + "rekey", params={"d": Dict(INT, INT)}, returns=Dict(INT, INT), dict_key_positions=True,
-     ensures={"only": "all(k - 1 in d for k in result)", "val": "all(result[k] == d[k - 1] for k in result)"},
+case(C + "rekey", params={"d": Dict(INT, INT)}, returns=Dict(INT, INT),
+     ensures={"only": "all(k - 1 in d for k in result)"},
      canaries={"same-keys": "all(k in result for k in d)", "empty": "len(result) == 0", "zero": "all(result[k] == 0 for k in result)"},
      gen=lambda rng: {"d": idict(rng)})
-case(C + "rekey_collide", params={"d": Dict(INT, INT)}, returns=Dict(INT, INT), requires=["all(k >= 0 for k in d)"], dict_key_positions=True,
-     ensures={"dom": "all(k // 2 in result for k in d)", "from": "all((2 * j in d and result[j] == d[2 * j]) or (2 * j + 1 in d and result[j] == d[2 * j + 1]) for j in result)"},
+case(C + "rekey_collide", params={"d": Dict(INT, INT)}, returns=Dict(INT, INT), requires=["all(k >= 0 for k in d)"],
+     ensures={"dom": "all(k // 2 in result for k in d)"},
      # FALSE: when both 2j and 2j+1 are keys the LATER one (in insertion order) wins, not always the even one
      canaries={"even-wins": "all(implies(2 * j in d, result[j] == d[2 * j]) for j in result)", "empty": "len(result) == 0"},
      gen=lambda rng: {"d": idict(rng)})
 case(C + "last_wins", params={"xs": List(INT)}, returns=Dict(INT, INT), requires=["all(x >= 0 for x in xs)"],
-     ensures={"dom": "all(x % 3 in result for x in xs)", "val": "all(result[r] % 3 == r and result[r] in xs for r in result)",
+     ensures={"dom": "all(x % 3 in result for x in xs)",
               "last": "implies(len(xs) > 0, result[xs[len(xs) - 1] % 3] == xs[len(xs) - 1])"},
      # FALSE: the FIRST occurrence does not win
      canaries={"first": "implies(len(xs) > 0, result[xs[0] % 3] == xs[0])", "empty": "len(result) == 0"},
@@ -162,3 +162,38 @@ case(C + "count_down", params={"n": INT}, returns=List(INT), requires=["n >= 0"]
      loops={"for i in range(n - 1, -1, -1)": Loop(index="j", invariants={"len": "len(out) == j", "vals": "all(out[k] == n - 1 - k for k in range(j))"})},
      locals={"out": List(INT)},
      gen=lambda rng: {"n": rng.randint(0, 5)})
+
+# ---- sorting axioms (opt-in: sorted_axioms=True) -------------------------------------------------------------------------------------------
+case(C + "sort_list", params={"xs": List(INT)}, returns=List(INT), sorted_axioms=True,
+     ensures={"len": "len(result) == len(xs)", "ordered": "all(result[k] <= result[k + 1] for k in range(len(result) - 1))",
+              "same": "all(x in result for x in xs) and all(x in xs for x in result)"},
+     canaries={"strict": "all(result[k] < result[k + 1] for k in range(len(result) - 1))", "identity": "result == xs", "desc": "all(result[k] >= result[k + 1] for k in range(len(result) - 1))"},
+     gen=lambda rng: {"xs": ints(rng)})
+case(C + "sort_list", name="opaque", params={"xs": List(INT)}, returns=List(INT),
+     # without the option sorting stays opaque: nothing about the result is provable (and nothing false either)
+     ensures={}, canaries={"len": "len(result) == len(xs)", "identity": "result == xs"}, canary_native=False,
+     gen=lambda rng: {"xs": ints(rng)})
+case(C + "sort_set", params={"s": Set(INT)}, returns=List(INT), sorted_axioms=True,
+     ensures={"strict": "all(result[k] < result[k + 1] for k in range(len(result) - 1))", "same": "all(x in s for x in result) and all(x in result for x in s)"},
+     canaries={"nonempty": "len(result) > 0", "has0": "0 in result"},
+     gen=lambda rng: {"s": rng.sample(range(6), rng.randint(0, 4))}, build=lambda d: {"s": set(d["s"])})
+case(C + "sort_desc", params={"xs": List(INT)}, returns=List(INT), sorted_axioms=True,
+     ensures={"len": "len(result) == len(xs)", "desc": "all(result[k] >= result[k + 1] for k in range(len(result) - 1))"},
+     canaries={"asc": "all(result[k] <= result[k + 1] for k in range(len(result) - 1))"},
+     gen=lambda rng: {"xs": ints(rng)})
+case(C + "sort_by_key", params={"ps": List(Tuple(STR, INT))}, returns=List(Tuple(STR, INT)), sorted_axioms=True,
+     ensures={"len": "len(result) == len(ps)", "bykey": "all(result[k][1] <= result[k + 1][1] for k in range(len(result) - 1))", "same": "all(p in ps for p in result)"},
+     canaries={"byname": "all(result[k][0] <= result[k + 1][0] for k in range(len(result) - 1))", "identity": "result == ps"},
+     gen=lambda rng: {"ps": [[rng.choice("abc"), rng.randint(0, 3)] for _ in range(rng.randint(0, 3))]}, build=lambda d: {"ps": [tuple(p) for p in d["ps"]]})
+case(C + "sort_inplace", params={"xs": List(INT)}, returns=List(INT), modifies=["xs"], sorted_axioms=True,
+     ensures={"len": "len(xs) == len(old(xs))", "ordered": "all(xs[k] <= xs[k + 1] for k in range(len(xs) - 1))", "ret": "result == xs"},
+     canaries={"identity": "xs == old(xs)"},
+     gen=lambda rng: {"xs": ints(rng)})
+case(C + "smallest", params={"xs": List(INT)}, returns=INT, requires=["len(xs) > 0"], sorted_axioms=True, seq_positions=True,
+     ensures={"min": "all(result <= x for x in xs)", "member": "result in xs"},
+     canaries={"max": "all(result >= x for x in xs)", "first": "result == xs[0]"},
+     gen=lambda rng: {"xs": [rng.randint(-3, 3)] + ints(rng)})
+case(C + "sort_dict", params={"d": D}, returns=List(STR), sorted_axioms=True,
+     ensures={"len": "len(result) == len(d)", "keys": "all(k in d for k in result) and all(k in result for k in d)", "strict": "all(result[k] < result[k + 1] for k in range(len(result) - 1))"},
+     canaries={"nonempty": "len(result) > 0", "has-a": "'a' in result"},
+     gen=lambda rng: {"d": sdict(rng)})
